@@ -83,6 +83,9 @@ func genView(r *kit.Rng) viewSpec {
 	if r.Chance(3, 5) {
 		v.Var = kit.Pick(r, []string{"string", "bytes", "bytes"})
 		nfix = r.Intn(4)
+		if r.Chance(1, 6) { // MinLen on the trailing column: prefixes shorter than it are legitimate partial keys
+			v.VarMin = 2 + r.Intn(2)
+		}
 	}
 	for i := 0; i < nfix; i++ {
 		k := kit.Pick(r, fixedKinds)
@@ -105,7 +108,9 @@ func pickKey(r *kit.Rng, v viewSpec, d doms) keySpec {
 		k.C = append(k.C, u(kit.Pick(r, d.c[i])))
 	}
 	if v.Var != "" {
-		k.V = kit.Pick(r, varPool)
+		for k.V = kit.Pick(r, varPool); len(k.V)/2 < v.VarMin; {
+			k.V = kit.Pick(r, varPool)
+		}
 	}
 	return k
 }
@@ -388,6 +393,9 @@ func Generate(seed uint64, n int, tier string, corpusDir string, out *kit.Out) e
 		if tier == "thorough" {
 			every = 12
 		}
+		if i%10 == 7 { // batch reads with many keys per partition
+			sc = genBatchScenario(cr, backends[(i/10)%len(backends)])
+		}
 		if i%every == every-1 {
 			sc = genLongScenario(cr, []string{"cached", "mem", "bbolt", "cached-bbolt", "cached"}[(i/every)%5])
 		}
@@ -427,7 +435,7 @@ func shapeKey(sc *scenario) string {
 	var sb strings.Builder
 	sb.WriteString(sc.Backend)
 	for _, v := range sc.Views {
-		fmt.Fprintf(&sb, "|%s/%s/%s%d", strings.Join(v.PK, ","), strings.Join(v.CC, ","), v.Var, v.VarMax)
+		fmt.Fprintf(&sb, "|%s/%s/%s%d", strings.Join(v.PK, ","), strings.Join(v.CC, ","), v.Var, v.VarMax*10+v.VarMin)
 	}
 	ks := func(k keySpec) string {
 		var s strings.Builder
